@@ -192,6 +192,7 @@ structure Tx where
   edns : Bool
   cookie : String
   len : Nat
+  key : Nat := 0           -- ghost: the query this transmission belongs to
   deriving Repr, Inhabited
 
 structure Reaction where
@@ -269,7 +270,8 @@ structure St where
   notifyPending : Bool := false
   ev : List String := []           -- events of the current op, newest first
   obs : Obs := {}
-  modelFaults : List String := []
+  modelFaults : List String := []  -- use of a released object / dangling index entry (safety faults)
+  obsFaults : List String := []    -- the observation offered no (or an out-of-policy) value for a free choice
   outOfFuel : Bool := false
   destroyed : Bool := false
   destroying : Bool := false
@@ -278,7 +280,13 @@ structure St where
   nextClient : Nat := 0
   reactSeq : Nat := 0
   pendingOrder : List Nat := []    -- keys whose jittered deadline awaits observation, in send order
-  requeueArr : List (Nat × Option Nat) := []  -- read_answers' deferred requeue array: (qid, server)
+  requeueArr : List (Nat × Option Nat) := []
+  /- ghost history (never read by the transitions; the theorems are stated over it) -/
+  writeLog : List Nat := []                      -- query key of every frame handed to a connection's out buffer
+  notifyLog : List (Nat × Bool × Bool) := []     -- every socket-state notification made: (fd, read, write)
+  sockLog : List (Nat × String) := []            -- every virtual socket call: (fd, call), oldest first
+  accepted : List (Nat × Nat × Reply) := []      -- (fd it arrived on, query key, reply) that passed all checks
+  picks : List (Nat × Nat × Bool × List (Nat × Nat)) := []  -- (query key, chosen server, requested, [(server, failures)])  -- read_answers' deferred requeue array: (qid, server)
   deriving Repr, Inhabited
 
 end Cares.Chan
